@@ -611,3 +611,50 @@ func c19Sched(r *Report) {
 		r.AddExplore(res, fmt.Sprintf("preemption bound %d", bound), time.Since(t0).Seconds())
 	}
 }
+
+
+// c07Sidecar: C07 ("decrypt yields the payload or an error, never a panic") through the sidecar's protobuf mapping: every
+// malformed decrypt record shape after a successful get-session, on both sidecar configurations.
+func c07Sidecar(r *Report, add func(v *kViol, ops interface{}, spec string)) {
+	n := 0
+	for _, caching := range []bool{false, true} {
+		c19SessionCaching = caching
+		w, err := newC19World()
+		if err != nil {
+			c19SessionCaching = false
+			r.Vacuous = append(r.Vacuous, "C07/sidecar: set-up failed: "+err.Error())
+			return
+		}
+		var shapes []string
+		for k := range c19RecordShapes {
+			shapes = append(shapes, k)
+		}
+		shapes = append(shapes, "dec(flipped-data)", "dec(flipped-key)", "dec(empty-record)", "dec(foreign)")
+		sort.Strings(shapes)
+		for _, sh := range shapes {
+			seq := []string{"get(p1)", sh, "dec(own)"}
+			reqs := make([]*pb.SessionRequest, len(seq))
+			for i, nm := range seq {
+				reqs[i] = w.request(nm, i)
+			}
+			st, _, pan := w.runStream(reqs)
+			n++
+			switch {
+			case pan != "":
+				add(&kViol{Prop: "C07", Sig: "panic:sidecar-decrypt", Msg: fmt.Sprintf("sidecar (session caching %v): decrypt request %s made the handler panic: %s", caching, sh, pan)}, seq, "sidecar")
+				if w2, err := newC19World(); err == nil {
+					w = w2
+				}
+			case len(st.out) >= 2 && !isErrResp(st.out[1]) && !strings.HasPrefix(sh, "dec(parent-created-") && !bytes.Equal(st.out[1].GetDecryptResponse().GetData(), w.ownData):
+				add(&kViol{Prop: "C07", Sig: "wrong-bytes:sidecar-decrypt", Msg: fmt.Sprintf("sidecar (session caching %v): decrypt request %s answered with %q without error", caching, sh, st.out[1].GetDecryptResponse().GetData())}, seq, "sidecar")
+			}
+		}
+	}
+	c19SessionCaching = false
+	r.Runs = append(r.Runs, RunInfo{Name: "C07/sidecar", Executions: n, States: n, Transitions: int64(n), Exhaustive: true,
+		Bound: "every malformed decrypt record shape after get-session, sidecar with and without session caching"})
+	r.Evaluations += n
+	r.TracesValidated += n
+	r.Transitions += int64(n)
+	r.DistinctNontrivial += n
+}
